@@ -140,3 +140,55 @@ func (r *RS) ReadAt(p []byte, off int64) (int, error) {
 type OnlyReader struct{ R io.Reader }
 
 func (o OnlyReader) Read(p []byte) (int, error) { return o.R.Read(p) }
+
+// FarRS is an io.ReadSeeker whose data lies at a large absolute position of a (virtual) larger
+// object: positions below Base read as zeros, positions from Base on deliver Data. It stands for
+// the section of a very large file or block device that a caller hands over positioned.
+type FarRS struct {
+	Base int64
+	Data []byte
+	Pos  int64
+	// SeekTargets records the absolute positions asked for.
+	SeekTargets []int64
+}
+
+func (r *FarRS) Read(p []byte) (int, error) {
+	if len(p) == 0 {
+		return 0, nil
+	}
+	end := r.Base + int64(len(r.Data))
+	if r.Pos >= end {
+		return 0, io.EOF
+	}
+	n := 0
+	for n < len(p) && r.Pos < end {
+		if r.Pos < r.Base {
+			p[n] = 0
+		} else {
+			p[n] = r.Data[r.Pos-r.Base]
+		}
+		n++
+		r.Pos++
+	}
+	return n, nil
+}
+
+func (r *FarRS) Seek(off int64, whence int) (int64, error) {
+	var abs int64
+	switch whence {
+	case io.SeekStart:
+		abs = off
+	case io.SeekCurrent:
+		abs = r.Pos + off
+	case io.SeekEnd:
+		abs = r.Base + int64(len(r.Data)) + off
+	default:
+		return 0, errors.New("verif: bad whence")
+	}
+	if abs < 0 {
+		return 0, errors.New("verif: negative position")
+	}
+	r.SeekTargets = append(r.SeekTargets, abs)
+	r.Pos = abs
+	return abs, nil
+}
